@@ -51,16 +51,22 @@ THEOREMS = [
     (M, "C10.projects_refine_history", "everything compareProjects does to the observers is ObserverList.run of one event sequence: per remove call one obsoleteFile, per add call missingFile (+ the two updateStats calls, or one error for the reference, unless ignored / no parser), per compare call events about its two files; every project observer ends as if fed that history alone"),
     (M, "C10.projects_file_events_once", "the missingFile/obsoleteFile notifications of a run are exactly one per add call / remove call, for the localized File of that call, in call order; compare raises none"),
     (M, "C10.projects_summary_counts", "after compareProjects every summary number of the union observer and of every project observer is the count over the run's history of the non-ignored findings (existing summary theorems instantiated with compareProjects' event sequence; filters = the projects' filters, none in validation mode)"),
-    (M, "C10.handle_exit_iff", "whenever CompareLocales.handle returns, its value is 1 iff not return_zero and the union observer counted an error during compareProjects, iff some project observer did; else 0"),
+    (M, "C10.handle_exit_iff", "whenever CompareLocales.handle returns, its value is 1 iff not return_zero and the union observer counted an error during compareProjects, iff some project observer did; else 0; the error flag of the union AND of every project observer is up iff that observer counted an error, so the value is the same whether handle reads observers.error or any(observer.error)"),
     (M, "C10.handle_report_blocks", "what handle prints and dumps: details iff non-empty, the 'Summaries for' header with one line per config path iff more than one config, the summaries; with --json - nothing but compareProjects' own prints; JSON data = one toJSON per project observer, to stdout iff '-'"),
     (M, "C10.projects_validation", "None in locales: nothing but None (else TypeError), every project observer unfiltered, every localized File shows REFERENCE_LOCALE; otherwise the filters are the projects' filters and the locales those of all_locales"),
     (M, "C10.projects_locale_order", "compareProjects gives the same result (observers, prints, calls, exception) for two locales arguments with the same members, whatever the order and repetitions"),
     (M, "C10.projects_calls_per_file", "every ContentComparer call of a run is a function (mkCall) of its own enumerated tuple, the matchers of its locale and the two exists answers: module and fpath come from the first matcher matching THIS path, nothing carries over from earlier files"),
     (M, "C10.composed_world_contract", "the composed pipeline model of ContentComparer.compare (C05) keeps the contract CompareRuns for all file contents: only error/warning/missingEntity/obsoleteEntity notifications for the localized file (or the one error of a failed readFile) and one updateStats without `errors`"),
-    (M, "C10.composed_exit_iff", "for the composed model (orchestration + pipeline), with no assumption on compare: handle returns 1 iff not return_zero and an error was counted by the union observer, iff by some project observer"),
+    (M, "C10.composed_exit_iff", "for the composed model (orchestration + pipeline), with no assumption on compare: handle returns 1 iff not return_zero and an error was counted by the union observer, iff by some project observer; flags of all observers as in handle_exit_iff"),
     (M, "C10.composed_refine_history", "for the composed model: a run of compareProjects is ObserverList.run of one history whose file notifications are exactly one per add/remove call and whose stats carry no `errors`"),
     (M, "C10.projects_quiet_hides_only_details", "two runs of compareProjects differing only in quiet (q <= q') make the same calls and prints, end with the same summaries, error flags and exit status for the union and every project observer, and per path the details at q' are a sublist of those at q"),
     (M, "C10.composed_world_quiet_blind", "the composed pipeline model of ContentComparer.compare raises the same events on two observer lists with the same filters (its control flow only reads return values of notify), for all file contents: the quiet theorem holds for the composed model without assumption"),
+    (M, "C10.flag_step_invariant", "ONE operation keeps `error flag <-> this observer counted an error`, whatever the state, the filter and its verdict; a notify moves flag and error counter together, iff the category is error and the verdict is not ignore (a finding DOWNGRADED to warning is still counted and still raises the flag)"),
+    (M, "C10.flag_iff_counted", "after any history a fresh Observer with ANY filter has its error flag up iff its summary counted an error"),
+    (M, "C10.list_flags_iff_counted", "after any history through an ObserverList the flag of the list AND of every project observer is up iff that observer counted an error"),
+    (M, "C10.exit_reader_independent", "exit = errors counted whichever flag handle reads: observers.error and any(observer.error for observer in observers) coincide after every history without `errors` stats, both give 1 iff not return_zero and the union counted an error"),
+    (M, "C10.downgraded_error_witness", "computed by the model: a filter answering warning for an error message -> counted, flag up, exit 1 (for both readers); answering ignore -> nothing counted, exit 0"),
+    (M, "C10.first_reader_witness", "negation witness: reading observers[0].error is not the exit rule (first project ignores, second counts)"),
     (M, "C10.extract_positionals_spec", "extract_positionals splits config_paths + [base] + locales at the first directory: configs = the non-empty prefix of existing files, base = abspath of that directory, locales = the rest or [None] with --validate; otherwise exactly one of the three parser.error messages"),
 ]
 PARTIAL = [
@@ -83,7 +89,10 @@ TRUSTED = [
     "hand-written models CLModel/Compare/Tree.lean (Tree.__get/toJSON/getContent) and CLModel/Compare/Observer.lean "
     "(Observer/ObserverList notify, updateStats, serializeDetails, serializeSummaries, exit status), tied by the `tree`/`obs` correspondence",
     "Python dicts/defaultdicts modelled as insertion-ordered association lists, sets of return values as duplicate-free lists",
-    "filters are pure functions File x entity -> {error, warning, ignore} (the contract of ProjectConfig.filter)",
+    "filters are pure functions File x entity -> {error, warning, ignore} (the contract of ProjectConfig.filter); for an error / warning "
+    "notification the entity is the MESSAGE TEXT, so catch-all key rules and legacy filter.py code answer for those too (generated)",
+    "the exit status of an observer history is taken from the real CompareLocales.handle run with stubs for extract_positionals, the "
+    "config loader and compareProjects (harness/impl/observer.py exit_status): no assumption on how handle computes its return value",
     "hand-written model CLModel/Compare/Projects.lean (compareProjects, ContentComparer.add/remove + the getParser gate of compare, handle, "
     "extract_positionals, mozpath.relpath/abspath), tied by the `c10.handle`/`c10.pos`/`c10.rel` correspondence on generated project trees: "
     "enumeration either as tables read off the real ProjectFiles objects or computed by the model of C13 (ProjectFilesM) from the pattern texts, "
@@ -256,18 +265,68 @@ def gen_observers(rng, allow_project=True):
             obs.append({"kind": "table", "seed": rng.randrange(1 << 30), "weights": [a, min(b, 1000)],
                         "ignore_locales": [l for l in LOCALES if rng.random() < 0.2]})
         else:
+            if rng.random() < 0.3:
+                obs.append(gen_filterpy(rng))
+                continue
             rules = []
             for _ in range(rng.randrange(0, 4)):
                 rule = {"path": "{l}/" + rng.choice(["**", "browser/**", "**/x.ftl", "a/**"]),
                         "action": rng.choice(["ignore", "warning", "error"])}
                 if rng.random() < 0.6:
-                    rule["key"] = rng.choice(["k", "key2", "re:^k", "-brand"])
+                    # the entity a rule sees is a key for missing/obsolete entities and the MESSAGE TEXT for errors and
+                    # warnings: catch-all rules and rules that match message texts answer for those too
+                    rule["key"] = rng.choice(["k", "key2", "re:^k", "-brand"] + KEY_RULES_MSG)
                 rules.append(rule)
             obs.append({"kind": "project", "locales": [l for l in LOCALES if rng.random() < 0.8] or ["de"], "rules": rules})
     return obs
 
 
-def gen_history(rng, maxlen, prefix_free=True):
+KEY_RULES_MSG = ["re:.", "re:(?s).*", "re:.*line", "re:^msg", "msg at line 1", "re:.* occurs "]
+DATA_MSG = ["k occurs 2 times", "msg at line 1", "Parser error in en-US", "é-ü", "k"]
+
+
+def gen_filterpy(rng, downgrade=False):
+    """a legacy filter.py (`ProjectConfig.set_filter_py`): rules over (path prefix, kind of question, regex) with the
+    legacy values True / False / "report" next to the modern ones"""
+    if downgrade:
+        rules = []
+        if rng.random() < 0.4:
+            rules.append({"prefix": rng.choice(["de/browser", "fr", "de/a"]), "on": "entity", "match": None, "value": "false"})
+        rules.append({"prefix": "", "on": "entity", "match": None, "value": "report"})
+        return {"kind": "filterpy", "locales": list(LOCALES), "rules": rules, "default": "error"}
+    rules = []
+    for _ in range(rng.randrange(0, 4)):
+        rules.append({"prefix": rng.choice(["", "", "de", "de/browser", "fr", "toolkit", "a"]),
+                      "on": rng.choice(["file", "entity", "entity", "any"]),
+                      "match": rng.choice([None, None, "^k", "line", "occurs", "."]),
+                      "value": rng.choice(["true", "false", "report", "report", "error", "ignore", "warning"])})
+    return {"kind": "filterpy", "locales": [l for l in LOCALES if rng.random() < 0.8] or ["de"], "rules": rules,
+            "default": rng.choice(["error", "error", "report", "false"])}
+
+
+def gen_downgrade_observers(rng):
+    """1-3 project observers whose filters answer "warning" or "ignore" — never "error" — for EVERY entity-level
+    question (so for every error / warning notification, whose entity is the message text): a TOML catch-all key rule,
+    possibly with an ignore rule for a directory after it (later rules win), or a legacy filter.py returning "report" """
+    obs = []
+    for _ in range(rng.choice([1, 1, 2, 2, 3])):
+        r = rng.random()
+        if r < 0.3:
+            obs.append(gen_filterpy(rng, downgrade=True))
+            continue
+        rules = [{"path": "{l}/**", "key": rng.choice(["re:.", "re:(?s).*", "re:(?s)."]),
+                  "action": "warning" if rng.random() < 0.8 else "ignore"}]
+        if rng.random() < 0.35:
+            rules.append({"path": "{l}/" + rng.choice(["browser/**", "a/**", "**/x.ftl"]), "key": "re:.", "action": "ignore"})
+        if rng.random() < 0.3:
+            rules.insert(0, {"path": "{l}/**", "action": rng.choice(["ignore", "warning", "error"])})    # file level
+        obs.append({"kind": "project", "locales": [l for l in LOCALES if rng.random() < 0.9] or ["de"], "rules": rules})
+    return obs
+
+
+def gen_history(rng, maxlen, prefix_free=True, downgrade=False):
+    """downgrade: every project filter answers "warning"/"ignore" for every error and warning notification, and no stats
+    dict carries `errors`: whatever is counted as an error was downgraded by every observer that saw it"""
     nfiles = rng.randrange(1, 8)
     if prefix_free:
         paths = gen_prefix_free(rng, nfiles)
@@ -280,22 +339,28 @@ def gen_history(rng, maxlen, prefix_free=True):
             f = ("/".join(p), None, None)
             if f not in files:
                 files.append(f)
-    observers = gen_observers(rng)
-    project = any(o and o["kind"] == "project" for o in observers)
+    observers = gen_downgrade_observers(rng) if downgrade else gen_observers(rng)
+    project = any(o and o["kind"] in ("project", "filterpy") for o in observers)
     events = []
-    for _ in range(rng.randrange(0, maxlen + 1)):
+    for _ in range(rng.randrange(1 if downgrade else 0, maxlen + 1)):
         fi = rng.randrange(len(files))
         r = rng.random()
         if r < 0.8:
-            cat = rng.choice(["e", "e", "w", "w", "me", "me", "oe", "oe", "mf", "of", "x"])
-            d = gen_data(rng, cat)
+            if downgrade:
+                cat = rng.choice(["e", "e", "e", "w", "w", "me", "oe", "mf", "of"])
+                d = None if cat in FILE_CATS else rng.choice(DATA_MSG)
+            else:
+                cat = rng.choice(["e", "e", "w", "w", "me", "me", "oe", "oe", "mf", "of", "x"])
+                d = gen_data(rng, cat)
+                if cat in ("e", "w") and rng.random() < 0.4:
+                    d = rng.choice(DATA_MSG)
             if project and isinstance(d, list):
                 d = "k"         # key rules of a ProjectConfig are regexes over str entities
             events.append(["n", cat, fi, d])
         else:
             ks = rng.sample(range(1, 11), rng.randrange(0, 4))
             st = [[k, rng.choice([0, 1, 2, 7, 123456])] for k in ks]
-            if rng.random() < 0.05:
+            if rng.random() < 0.05 and not downgrade:
                 st.append([0, rng.randrange(1, 4)])      # an `errors` entry, positive
             events.append(["s", fi, st])
     return {"files": files, "observers": observers, "events": events, "rz": rng.randrange(2), "prefix_free": prefix_free}
@@ -310,6 +375,14 @@ def exhaustive_histories(ctx):
         [{"kind": "table", "seed": 1, "weights": [500, 700], "ignore_locales": []}],
         [{"kind": "table", "seed": 2, "weights": [400, 600], "ignore_locales": ["fr"]}, None],
         [],
+        # every entity-level question (keys AND the message texts of errors / warnings) is answered "warning"
+        [{"kind": "project", "locales": ["de", "fr"], "rules": [{"path": "{l}/**", "key": "re:.", "action": "warning"}]}],
+        # a project that downgrades for de and does not know fr, next to a legacy filter.py that reports everything
+        # but ignores the entities of fr/z
+        [{"kind": "project", "locales": ["de"], "rules": [{"path": "{l}/**", "key": "re:.", "action": "warning"}]},
+         {"kind": "filterpy", "locales": ["de", "fr"], "default": "error",
+          "rules": [{"prefix": "fr", "on": "entity", "match": None, "value": "false"},
+                    {"prefix": "", "on": "entity", "match": None, "value": "report"}]}],
     ]
     L = 2 if ctx.tier == "quick" else 3
     out = []
@@ -623,6 +696,10 @@ def oracle_history(case, acts, results):
                 return "quiet=%d: %s summary %r, expected from the history %r" % (q, who, counts_of(got), exp["counts"])
             if got["error"] != exp["error"]:
                 return "quiet=%d: %s error flag %r, expected %r" % (q, who, got["error"], exp["error"])
+            # the flag of EVERY observer (the list and each project observer) says that THIS observer counted an error
+            own_total = sum(cs[0] for _, cs in got["summary"])
+            if not zero_err_stats and bool(got["error"]) != (own_total > 0):
+                return "quiet=%d: %s error flag %r although its own summary counts %d errors" % (q, who, got["error"], own_total)
             # details: every stored list sits at the path it was raised for; at quiet 0 nothing is hidden
             stored = {}
             for p, items in got["flat"]:
@@ -661,8 +738,11 @@ def oracle_history(case, acts, results):
             total = sum(v for (loc, k), v in exp["counts"].items() if k == 0)
             want = 1 if (not case["rz"] and total > 0) else 0
             for q, r in enumerate(results):
+                if isinstance(r["exit"], str) and nobs == 0:
+                    _tick("exit.handle_raised_without_project_observers")
+                    continue        # `handle` never sees an ObserverList without project observers (one per config)
                 if r["exit"] != want:
-                    return "quiet=%d: exit status %d, expected %d (errors counted: %d, return_zero=%r)" % (
+                    return "quiet=%d: exit status %s, expected %d (errors counted: %d, return_zero=%r)" % (
                         q, r["exit"], want, total, bool(case["rz"]))
                 if nobs and not err_stats and (total > 0) != any(sum(cs[0] for _, cs in o["summary"]) > 0 for o in r["obs"]):
                     return "quiet=%d: list counted %d errors but the project observers disagree" % (q, total)
@@ -770,6 +850,15 @@ def gen_project(rng):
     two = rng.random() < 0.3
     toml = 'basepath = "."\nlocales = [%s]\n[[paths]]\n    reference = "en/%s**"\n    l10n = "{l10n_base}/{locale}/%s**"\n'
     locs = ", ".join('"%s"' % l for l in locales)
+    # the class of round 5: a catch-all key rule answers "warning" (the duplicated keys stay errors of their files: counted,
+    # shown, exit 1) or "ignore" (nothing is counted) for every error message of the project
+    r = rng.random()
+    action = "warning" if r < 0.3 else ("ignore" if r < 0.4 else None)
+    if action is not None:
+        toml += '[[filters]]\n    path = "{l10n_base}/{locale}/**"\n    key = "%s"\n    action = "%s"\n' % (
+            rng.choice(["re:.", "re:.* occurs "]), action)
+        if action == "ignore":
+            expect["dups"] = {}
     if two:
         files["one.toml"] = toml % (locs, "browser/", "browser/")
         files["two.toml"] = toml % (locs, "toolkit/", "toolkit/")
@@ -868,6 +957,7 @@ def gen_cp_spec(rng):
     with by-construction knowledge of what is missing / obsolete / duplicated for the oracle"""
     locales = rng.sample(CP_LOCALES, rng.randrange(1, 4))
     nconf = rng.choice([1, 1, 2, 2, 3])
+    downgrade = rng.random() < 0.35
     files = {}
     ref = {}            # rel path under en/ -> {"ext", "entries", "junk"}
     for d in CP_DIRS:
@@ -951,15 +1041,23 @@ def gen_cp_spec(rng):
                 lines.append('    test = ["android-dtd"]')
         rules = []
         for _ in range(rng.choice([0, 0, 1, 1, 2])):
-            rd = rng.choice(["browser/sub/", "toolkit/", "browser/", "mobile/"])
+            rd = rng.choice(["browser/sub/", "toolkit/", "browser/", "mobile/", ""])
             action = rng.choice(["ignore", "ignore", "warning", "error"])
-            key = rng.choice([None, None, "k1", "re:^k", "title"])
-            lines.append("[[filters]]")
-            lines.append('    path = "%s/%s**"' % (lroot, rd))
-            if key is not None:
-                lines.append('    key = "%s"' % key)
-            lines.append('    action = "%s"' % action)
+            # a key rule is asked about entity keys AND about the message texts of errors / warnings
+            # ("k1 occurs 2 times"): "re:^k", "re:." and "re:.* occurs " answer for those too
+            key = rng.choice([None, None, "k1", "re:^k", "title", "re:.", "re:.* occurs "])
             rules.append({"dir": rd, "action": action, "key": key})
+        if downgrade:
+            # the class of round 5: a catch-all key rule LAST (later rules win) downgrades — or ignores — every
+            # entity-level finding of the project, errors included
+            rules.append({"dir": rng.choice(["", "", "", "browser/"]) if nconf == 1 and rng.random() < 0.2 else "",
+                          "action": "warning" if rng.random() < 0.8 else "ignore", "key": rng.choice(["re:.", "re:(?s).", "re:.+"])})
+        for r in rules:
+            lines.append("[[filters]]")
+            lines.append('    path = "%s/%s**"' % (lroot, r["dir"]))
+            if r["key"] is not None:
+                lines.append('    key = "%s"' % r["key"])
+            lines.append('    action = "%s"' % r["action"])
         name = ["l10n.toml", "two.toml", "three.toml"][i]
         files[name] = "\n".join(lines) + "\n"
         configs.append(name)
@@ -991,8 +1089,70 @@ def gen_cp_spec(rng):
                                                      "dup": v["dup"]} for k, v in ref.items()},
                      "l10n": {"%s/%s" % k: {"keys": [e[0] for e in v["entries"]], "dups": v["dups"], "junk": v["junk"]}
                               for k, v in l10n.items()},
-                     "configs": cfg_meta, "checks": checks}}
+                     "configs": cfg_meta, "checks": checks, "downgrade": downgrade}}
     return spec
+
+
+def cp_rule_verdict(rules, rel, entity):
+    """the answer of a project's [[filters]] for an ENTITY-level question about the file `rel` it covers (TOML filter
+    semantics: later rules win; a rule with `key` answers entity questions only; "re:" keys are regexes matched at the
+    start, plain keys must equal the entity); "error" when no rule answers"""
+    import re as _re
+    for r in reversed(rules):
+        if r["key"] is None or not rel.startswith(r["dir"]):
+            continue
+        k = r["key"]
+        if (_re.match(k[3:], entity) is not None) if k.startswith("re:") else (entity == k):
+            return r["action"]
+    return "error"
+
+
+def oracle_cp_errors(spec, args, sem, obs, lst, rc):
+    """ERRORS AND EXIT STATUS BY CONSTRUCTION.  The only errors a plain tree (no junk, no printf mismatch) holds are its
+    duplicated keys: one error "<key> occurs 2 times" per key written twice into a localized file.  A project observer
+    counts it unless its filter answers "ignore" for that message (a "warning" answer DOWNGRADES the return value, the
+    finding is still an error of the file); the union counts it unless every project does.  The exit status is 1 iff
+    return_zero is off and the union counted at least one."""
+    meta = spec["meta"]
+    if meta["checks"]:
+        return None
+    want_union, seen, clean = {}, set(), True
+    for i, (per, o, c) in enumerate(zip(sem["projects"], obs, meta["configs"])):
+        for loc, d in per.items():
+            want, skip = 0, False
+            for rel in d["compared"]:
+                r, l = meta["ref"][rel], meta["l10n"]["%s/%s" % (loc, rel)]
+                if r["junk"] or l["junk"]:
+                    skip = True
+                    continue
+                if r["ext"] == "txt":
+                    continue
+                for k in l["dups"]:
+                    if cp_rule_verdict(c["rules"], rel, "%s occurs 2 times" % k) != "ignore":
+                        want += 1
+                        if (loc, rel, k) not in seen:
+                            seen.add((loc, rel, k))
+                            want_union[loc] = want_union.get(loc, 0) + 1
+            for rel in d["missing"]:
+                if meta["ref"][rel]["junk"]:
+                    skip = True
+            if skip:
+                clean = False
+                continue
+            got = o["summary"].get(loc, {}).get("errors", 0)
+            if got != want:
+                return "project %d locale %s: %d errors counted, %d duplicated keys written that its filter does not ignore" % (
+                    i, loc, got, want)
+    if not clean:
+        return None
+    got_union = {loc: c.get("errors", 0) for loc, c in lst["summary"].items() if c.get("errors", 0)}
+    if got_union != want_union:
+        return "union: errors per locale %r, duplicated keys written that some project does not ignore: %r" % (got_union, want_union)
+    want_rc = 1 if (not args.get("return_zero") and sum(want_union.values()) > 0) else 0
+    if rc != want_rc:
+        return "exit status %d, expected %d: %d errors (duplicated keys not ignored by every project) were written, return_zero=%r" % (
+            rc, want_rc, sum(want_union.values()), bool(args.get("return_zero")))
+    return None
 
 
 
@@ -1032,6 +1192,19 @@ def gen_cp_mix_spec(rng):
         fill("%s/locales/en-US" % m, m)
     for d in plain:
         fill("plainref/%s" % d, d)
+    if rng.random() < 0.5:
+        # a legacy filter.py next to the l10n.ini: "report" (= warning) or an ignore for the entity-level questions,
+        # message texts of errors included; and a catch-all key rule in the TOML project
+        val = rng.choice(["report", "report", "report", "ignore", False])
+        only = rng.choice([None, None, modules[0]])
+        src = "def test(mod, path, entity=None):\n    if entity is None:\n        return 'error'\n"
+        if only is not None:
+            src += "    if mod != %r:\n        return 'error'\n" % only
+        files["app/locales/filter.py"] = src + "    return %r\n" % (val,)
+        if rng.random() < 0.8:
+            toml += ["[[filters]]", '    path = "{l10n_base}/{locale}/**"', '    key = "re:."',
+                     '    action = "%s"' % rng.choice(["warning", "warning", "ignore"])]
+            files["l10n.toml"] = "\n".join(toml) + "\n"
     cps = ["app/locales/l10n.ini", "l10n.toml"]
     if rng.random() < 0.5:
         cps.reverse()
@@ -1168,8 +1341,53 @@ def cp_error_specs(rng):
                                args=A(merge="merge"))),
         ("full-validate", dict(base, args=A(validate=True, full=True))),
         ("full-locales", dict(base, args=A(full=True, locales=["fr"]))),
-    ] + cp_ini_specs(rng)
+    ] + cp_downgrade_specs() + cp_ini_specs(rng)
     return specs
+
+
+def cp_downgrade_specs():
+    """an error-category finding (duplicated key, parse error, failed check) in a file whose project filter answers
+    "warning" / "ignore" for the notification — the message text is the entity —, and no other error in the run"""
+    toml = 'basepath = "."\nlocales = ["de"]\n[[paths]]\n    reference = "en/**"\n    l10n = "{l10n_base}/{locale}/**"\n'
+    flt = '[[filters]]\n    path = "{l10n_base}/{locale}/**"\n    key = "%s"\n    action = "%s"\n'
+    toml2 = 'basepath = "."\nlocales = ["de"]\n[[paths]]\n    reference = "en/sub/**"\n    l10n = "{l10n_base}/{locale}/sub/**"\n'
+    dup = {"en/a.properties": "k = v\nm = w\n", "l10n/de/a.properties": "k = w\nk = x\nm = y\n"}
+    A = lambda **kw: dict({"config_paths": ["l10n.toml"], "l10n_base_dir": "l10n", "locales": [], "quiet": 0}, **kw)
+    out = []
+    for q in (0, 4):
+        out.append(("downgrade-dup-warning-q%d" % q, {"files": dict(dup, **{"l10n.toml": toml + flt % ("re:.", "warning")}), "dirs": ["l10n"],
+                                                     "args": A(quiet=q)}))
+    out += [
+        ("downgrade-dup-ignore", {"files": dict(dup, **{"l10n.toml": toml + flt % ("re:.", "ignore")}), "dirs": ["l10n"], "args": A()}),
+        ("downgrade-dup-message-rule", {"files": dict(dup, **{"l10n.toml": toml + flt % ("re:.* occurs ", "warning")}), "dirs": ["l10n"],
+                                        "args": A(json="-")}),
+        ("downgrade-dup-return-zero", {"files": dict(dup, **{"l10n.toml": toml + flt % ("re:.", "warning")}), "dirs": ["l10n"],
+                                       "args": A(return_zero=True)}),
+        ("downgrade-junk-warning", {"files": {"l10n.toml": toml + flt % ("re:.", "warning"), "en/a.properties": "k = v\n",
+                                              "l10n/de/a.properties": "k = w\nthis is junk\n"}, "dirs": ["l10n"], "args": A()}),
+        ("downgrade-check-warning", {"files": {"l10n.toml": toml + flt % ("re:.", "warning"), "en/a.properties": "k = Hello %S\n",
+                                               "l10n/de/a.properties": "k = Hallo %d\n"}, "dirs": ["l10n"], "args": A()}),
+        # two projects: the one that covers the file downgrades, the other ignores it (not its path)
+        ("downgrade-two-projects", {"files": dict(dup, **{"l10n.toml": toml + flt % ("re:.", "warning"), "two.toml": toml2,
+                                                          "en/sub/b.properties": "k = v\n", "l10n/de/sub/b.properties": "k = w\n"}),
+                                    "dirs": ["l10n"], "args": A(config_paths=["two.toml", "l10n.toml"])}),
+        # two projects over the same file: one downgrades, one ignores the message
+        ("downgrade-warning+ignore", {"files": dict(dup, **{"l10n.toml": toml + flt % ("re:.", "warning"),
+                                                            "two.toml": toml + flt % ("re:.", "ignore")}),
+                                      "dirs": ["l10n"], "args": A(config_paths=["two.toml", "l10n.toml"])}),
+    ]
+    # a legacy filter.py answering "report" for every entity (l10n.ini project)
+    ini = "[general]\ndepth = ../..\nall = app/locales/all-locales\n\n[compare]\ndirs = app\n"
+    fpy = "def test(mod, path, entity=None):\n    if entity is None:\n        return 'error'\n    return %r\n"
+    files = {"app/locales/l10n.ini": ini, "app/locales/all-locales": "de\n",
+             "app/locales/en-US/a.properties": "k1 = one\nk2 = two\n", "l10n/de/app/a.properties": "k1 = eins\nk1 = zwei\nk2 = x\n"}
+    for name, val in (("report", "report"), ("ignore", "ignore"), ("false", False)):
+        out.append(("downgrade-filterpy-" + name, {"files": dict(files, **{"app/locales/filter.py": fpy % (val,)}), "dirs": ["l10n"],
+                                                   "args": A(config_paths=["app/locales/l10n.ini"])}))
+    # by construction: every tree holds exactly one error-category finding; it is counted (exit 1) unless every project
+    # filter IGNORES it or return_zero is on
+    zero = ("downgrade-dup-ignore", "downgrade-dup-return-zero", "downgrade-filterpy-ignore", "downgrade-filterpy-false")
+    return [(name, dict(sp, expect_outcome="returned:%d" % (0 if name in zero else 1))) for name, sp in out]
 
 
 def cp_ini_specs(rng):
@@ -1262,6 +1480,11 @@ def oracle_cp_run(spec, args, res):
         return "the union observer counted %d errors, the project observers %d" % (tot_union, tot_obs)
     if lst["error"] != (tot_union > 0):
         return "error flag %r with %d errors counted" % (lst["error"], tot_union)
+    # the flag of EVERY project observer says that this observer counted an error (also when its filter downgraded it)
+    for i, o in enumerate(obs):
+        n = sum(c.get("errors", 0) for c in o["summary"].values())
+        if o["error"] != (n > 0):
+            return "project %d: error flag %r with %d errors counted by that observer" % (i, o["error"], n)
     # one observer per config; filters off exactly in validation mode
     nconf = len(args["config_paths"])
     if len(obs) != nconf:
@@ -1363,6 +1586,10 @@ def oracle_cp_run(spec, args, res):
     # counts of missing strings: entities of the missing files + entities missing in compared files (plain trees only)
     if sem is not None and not spec["meta"]["checks"]:
         msg = oracle_cp_counts(spec, args, sem, obs)
+        if msg:
+            return msg
+    if sem is not None:
+        msg = oracle_cp_errors(spec, args, sem, obs, lst, rc)
         if msg:
             return msg
     return None
@@ -1596,7 +1823,7 @@ def run_projects(ctx, out):
     for ci, ((gi, name, sp), r) in enumerate(zip(cases, res)):
         out.evaluations += 1
         small = {"files": sp["files"], "dirs": sp.get("dirs", []), "args": sp["args"], "relative": sp.get("relative", False),
-                 "meta": sp.get("meta"), "tags": sp.get("tags", [])}
+                 "meta": sp.get("meta"), "tags": sp.get("tags", []), "expect_outcome": sp.get("expect_outcome")}
         if "r" not in r:
             out.violations.append({"what": "CompareLocales.handle: %s (%s) at %s" % (r.get("exc"), r.get("msg"), r.get("where")),
                                    "op": "cp", "input": small, "finding": None})
@@ -1605,6 +1832,9 @@ def run_projects(ctx, out):
         p = r["plain"]
         kind = p["outcome"].split(":")[0]
         bad = oracle_cp_run(sp, sp["args"], r)
+        if not bad and sp.get("expect_outcome") and p["outcome"] != sp["expect_outcome"]:
+            bad = "outcome %s, by construction of the tree (one error-category finding, filter verdicts as written) %s" % (
+                p["outcome"], sp["expect_outcome"])
         if bad:
             out.violations.append({"what": "compareProjects/handle (%s): %s" % (name, bad), "op": "cp", "input": small, "finding": None})
             out.count("proj.cp.violations")
@@ -1631,6 +1861,9 @@ def run_projects(ctx, out):
             out.count("proj.cp.raise." + p["exc"]["exc"])
         if "obs" in p:
             out.count("proj.cp.observers=%d" % len(p["obs"]))
+            if (sp.get("meta") or {}).get("downgrade") and name.startswith("q"):
+                n = sum(c.get("errors", 0) for c in p["list"]["summary"].values())
+                out.count("proj.cp.class.downgrade_runs." + ("with_errors" if n else "no_errors"))
             if len(p["obs"]) > 1 and any(o["summary"] for o in p["obs"]):
                 out.nontrivial.add(("cp", r["canon"][:4000]))
         for k in ("add", "remove", "compare"):
@@ -1715,10 +1948,14 @@ def run(ctx):
     out = Outcome()
     out.rule = ("tree: every sequence of <=3 (quick) / <=4 (thorough) tree[path] calls over the 14 paths of depth <=3 on {a,b}, plus random "
                 "sequences over prefix-free and arbitrary path sets; obs: every history of <=2 / <=3 events over 21 events x 3 files x 4 "
-                "observer configurations, plus random histories (<=30 events, <=8 files with shared directory prefixes, File keys with/without "
-                "module, 0-3 project observers with hash-table or real ProjectConfig filters), each at quiet 0..4; command: generated project "
-                "trees through CompareLocales().handle at quiet 0..4 x return_zero. non-trivial = at least two stored paths under a shared "
-                "compressed prefix; distinct = distinct canonical results among those")
+                "observer configurations (two of them with filters that DOWNGRADE every error: a TOML catch-all key rule, a legacy filter.py), "
+                "plus random histories (<=30 events, <=8 files with shared directory prefixes, File keys with/without "
+                "module, 0-3 project observers with hash-table or real ProjectConfig filters incl. catch-all / message-text key rules and "
+                "legacy filter.py callables) and a family in which every project filter answers warning/ignore for every error, each at "
+                "quiet 0..4; the exit status of a history is what the REAL CompareLocales.handle returns when compareProjects hands it that "
+                "ObserverList; command: generated project trees (with catch-all filters) through CompareLocales().handle at quiet 0..4 x "
+                "return_zero. non-trivial = at least two stored paths under a shared compressed prefix; distinct = distinct canonical "
+                "results among those")
     # ---------------- tree
     cases, exhaustive, probes = tree_cases(ctx)
     out.count("tree.cases", len(cases))
@@ -1746,6 +1983,11 @@ def run(ctx):
     out.count("obs.exhaustive", len(hist))
     for _ in range(ctx.n(1200, 30000)):
         hist.append(gen_history(rng, 30 if rng.random() < 0.3 else 10, prefix_free=True))
+    # the class of round 5: project filters that DOWNGRADE (or ignore) error notifications — the message text is the
+    # entity they are asked about —, single- and multi-project, with no un-downgraded error in the history
+    rngd = ctx.rng("c10", "obs-downgrade")
+    for _ in range(ctx.n(300, 6000)):
+        hist.append(gen_history(rngd, rngd.choice([1, 2, 3, 6, 12]), prefix_free=True, downgrade=True))
     informational = []
     for _ in range(ctx.n(150, 3000)):
         informational.append(gen_history(rng, 12, prefix_free=False))
@@ -1812,6 +2054,14 @@ def run(ctx):
         c0 = results[0]["canon"]
         if ">{" in c0 and c0.count("[") >= 3:
             out.nontrivial.add(c0)
+        # how much of the class of round 5 was explored: errors counted although NO project filter answered "error"
+        counted = [row for ev, row in zip(case["events"], acts) if ev[0] == "n" and ev[1] == "e" and any(a != "ignore" for a in row)]
+        if counted and case["observers"] and not any(ev[0] == "s" and any(k == 0 for k, _ in ev[2]) for ev in case["events"]):
+            if all(a != "error" for row in counted for a in row):
+                out.count("obs.class.errors_all_downgraded")
+                out.count("obs.class.errors_all_downgraded.observers=%d" % len(case["observers"]))
+            elif any("warning" in row for row in counted):
+                out.count("obs.class.errors_some_downgraded")
         out.count("obs.observers=%d" % len(case["observers"]))
         if len(out.samples) < 5 and len(case["events"]) >= 6 and len(case["observers"]) >= 2 and ">{" in c0:
             out.samples.append({"op": "obs", "case": case, "quiet0": c0[:1500]})
@@ -1905,8 +2155,10 @@ def replay(payload):
             if "r" not in r:
                 res.append({"input": i["args"], "oracle": "CompareLocales.handle: %s (%s)" % (r.get("exc"), r.get("msg"))})
             else:
-                res.append({"input": i["args"], "outcome": r["r"]["plain"]["outcome"],
-                            "oracle": oracle_cp_run(i, i["args"], r["r"]) if i.get("meta") else None})
+                bad = oracle_cp_run(i, i["args"], r["r"])
+                if not bad and i.get("expect_outcome") and r["r"]["plain"]["outcome"] != i["expect_outcome"]:
+                    bad = "outcome %s, by construction %s" % (r["r"]["plain"]["outcome"], i["expect_outcome"])
+                res.append({"input": i["args"], "outcome": r["r"]["plain"]["outcome"], "oracle": bad})
         elif v.get("op") == "cp-quiet":
             rs = pool.pmap("impl.projects", "run_handle", [[dict(i, args=dict(i["args"], quiet=q))] for q in range(5)], timeout=60.0)
             ok = all("r" in r for r in rs)
